@@ -67,6 +67,33 @@ int main() {
       case a64::InstDB::kEncodingSimdLdurStur: { const auto& d = ED::simdLdurStur[idx]; V(SimdLdurStur, "opcode", uint32_t(d.opcode) << 10); break; }
       case a64::InstDB::kEncodingISimdVVVV: { const auto& d = ED::iSimdVVVV[idx]; V(ISimdVVVV, "opcode", uint32_t(d.opcode) << 10); break; }
       case a64::InstDB::kEncodingISimdVVVVx: { const auto& d = ED::iSimdVVVVx[idx]; V(ISimdVVVVx, "opcode", uint32_t(d.opcode) << 10); break; }
+#define LIT(CLS) case a64::InstDB::kEncoding##CLS: V(CLS, "lit", 0); break;
+      LIT(BaseRev) LIT(BaseMov) LIT(BaseAtDcIcTlbi) LIT(BaseSys) LIT(BaseMrs) LIT(BaseMsr) LIT(SimdFcsel) LIT(SimdFcvt) LIT(SimdFmov) LIT(SimdDup) LIT(SimdIns)
+#undef LIT
+      case a64::InstDB::kEncodingSimdFcvtSV: { const auto& d = ED::simdFcvtSV[idx];
+        V(SimdFcvtSV, "general", d.general_op()); if (d.is_fixed_point()) V(SimdFcvtSV, "general_fixed", d.general_op() ^ (1u << 21));
+        V(SimdFcvtSV, "int_scalar", d.scalar_int_op()); V(SimdFcvtSV, "int_vector", d.vector_int_op());
+        if (d.is_fixed_point()) { V(SimdFcvtSV, "scalar_fixed", d.scalar_fp_op()); V(SimdFcvtSV, "vector_fixed", d.vector_fp_op()); } break; }
+      case a64::InstDB::kEncodingSimdLdNStN: { const auto& d = ED::simdLdNStN[idx];
+        if (d.replicate) V(SimdLdNStN, "replicate", uint32_t(d.single_op) << 10);
+        else { V(SimdLdNStN, "single", uint32_t(d.single_op) << 10); V(SimdLdNStN, "multiple", uint32_t(d.multiple_op) << 10); } break; }
+      case a64::InstDB::kEncodingSimdCmp: { const auto& d = ED::simdCmp[idx];
+        if (d.register_op) V(SimdCmp, "reg3", uint32_t(d.register_op) << 10); if (d.zero_op) V(SimdCmp, "zero", uint32_t(d.zero_op) << 10); break; }
+      case a64::InstDB::kEncodingSimdFmlal: { const auto& d = ED::simdFmlal[idx];
+        if (d._vector_op) V(SimdFmlal, "regular", d.vector_op()); if (d._elementOp) V(SimdFmlal, "element", d.element_op()); break; }
+      case a64::InstDB::kEncodingSimdFcvtLN: { const auto& d = ED::simdFcvtLN[idx];
+        V(SimdFcvtLN, "ln_vector", d.vector_op()); if (d.has_scalar()) V(SimdFcvtLN, "ln_scalar", d.scalar_op()); break; }
+      case a64::InstDB::kEncodingSimdDot: { const auto& d = ED::simdDot[idx];
+        if (d.vector_op) V(SimdDot, "regular", uint32_t(d.vector_op) << 10); if (d.element_op) V(SimdDot, "element", uint32_t(d.element_op) << 10); break; }
+      case a64::InstDB::kEncodingSimdFcm: { const auto& d = ED::simdFcm[idx];
+        if (d.has_register_op()) { V(SimdFcm, "register_scalar", d.register_scalar_op()); V(SimdFcm, "register_vector", d.register_vector_op()); }
+        if (d.has_zero_op()) { V(SimdFcm, "zero_scalar", d.zero_scalar_op()); V(SimdFcm, "zero_vector", d.zero_vector_op()); } break; }
+      case a64::InstDB::kEncodingSimdSxtlUxtl: { const auto& d = ED::simdSxtlUxtl[idx]; V(SimdSxtlUxtl, "opcode", uint32_t(d.opcode) << 10); break; }
+      case a64::InstDB::kEncodingSimdSmovUmov: { const auto& d = ED::simdSmovUmov[idx]; V(SimdSmovUmov, "opcode", uint32_t(d.opcode) << 10); break; }
+      case a64::InstDB::kEncodingSimdTblTbx: { const auto& d = ED::simdTblTbx[idx]; V(SimdTblTbx, "opcode", uint32_t(d.opcode) << 10); break; }
+      case a64::InstDB::kEncodingISimdPair: { const auto& d = ED::iSimdPair[idx];
+        if (d.opcode2) V(ISimdPair, "scalar", (uint32_t(d.opcode2) << 10) | (3u << 22)); V(ISimdPair, "vector", uint32_t(d.opcode3) << 10); break; }
+      case a64::InstDB::kEncodingSimdBicOrr: { const auto& d = ED::simdBicOrr[idx]; V(SimdBicOrr, "reg3", uint32_t(d.register_op) << 10); break; }
       case a64::InstDB::kEncodingFSimdSV: { const auto& d = ED::fSimdSV[idx]; V(FSimdSV, "opcode", uint32_t(d.opcode) << 10); break; }
       case a64::InstDB::kEncodingSimdFcadd: { const auto& d = ED::simdFcadd[idx]; V(SimdFcadd, "opcode", d.opcode()); break; }
       case a64::InstDB::kEncodingSimdSm3tt: { const auto& d = ED::simdSm3tt[idx]; V(SimdSm3tt, "opcode", uint32_t(d.opcode) << 10); break; }
